@@ -39,7 +39,7 @@ func c17KeyType(base string) *dm.Type {
 }
 
 func c17LookupGen(t *rapid.T) c17LookupCase {
-	c := c17LookupCase{Store: rapid.SampledFrom([]string{"rs", "reflect-slice", "node-slice", "reflect-map", "node-map", "reflect-struct", "node-struct", "json-reader"}).Draw(t, "store")}
+	c := c17LookupCase{Store: rapid.SampledFrom([]string{"rs", "reflect-slice", "node-slice", "reflect-map", "node-map", "reflect-struct", "node-struct", "json-reader", "xml-reader"}).Draw(t, "store")}
 	bases := []string{"int8", "int16", "int32", "int64", "uint8", "uint16", "uint32", "uint64", "string", "boolean", "enumeration"}
 	nk := rapid.IntRange(1, 3).Draw(t, "nkeys")
 	switch c.Store {
@@ -48,7 +48,7 @@ func c17LookupGen(t *rapid.T) c17LookupCase {
 		bases = []string{"string", "int32", "int64"} // the key types the library itself creates maps for
 	case "reflect-struct", "node-struct":
 		bases = []string{"int8", "int32", "int64", "uint16", "uint64", "string", "boolean"}
-	case "rs", "reflect-slice", "node-slice", "json-reader":
+	case "rs", "reflect-slice", "node-slice", "json-reader", "xml-reader":
 		bases = append(bases, "decimal64", "binary", "union")
 	}
 	for i := 0; i < nk; i++ {
